@@ -503,15 +503,11 @@ func lookupOf(v ssa.Value) (key ssa.Value, ok bool) {
 		return nil, false
 	}
 	g := rawStaticCallee(c)
-	if g == nil || !gp.inMod(g) || len(g.Blocks) != 1 {
+	if g == nil || !gp.inMod(g) {
 		return nil, false
 	}
-	rets := plainReturnsOf(g)
-	if len(rets) != 1 || len(rets[0].Results) != 1 {
-		return nil, false
-	}
-	lk, isL := plainDeref(rets[0].Results[0]).(*ssa.Lookup)
-	if !isL {
+	lk := getterLookup(g)
+	if lk == nil {
 		return nil, false
 	}
 	idx := lk.Index
@@ -524,4 +520,67 @@ func lookupOf(v ssa.Value) (key ssa.Value, ok bool) {
 		}
 	}
 	return nil, false
+}
+
+// getterLookup: g answers with one map lookup — `return m[k]`, or the comma-ok form that returns
+// the element when present and the zero value otherwise (which is what m[k] yields anyway).
+func getterLookup(g *ssa.Function) *ssa.Lookup {
+	var lk *ssa.Lookup
+	rets := plainReturnsOf(g)
+	if len(rets) == 0 || len(g.Blocks) > 4 {
+		return nil
+	}
+	for _, ret := range rets {
+		if len(ret.Results) != 1 {
+			return nil
+		}
+		v := plainDeref(ret.Results[0])
+		if ex, isEx := v.(*ssa.Extract); isEx && ex.Index == 0 {
+			if l, isL := ex.Tuple.(*ssa.Lookup); isL && l.CommaOk {
+				// returned where the key was found
+				found := false
+				for _, gd := range guardsOf(ret.Block()) {
+					if e2, isE2 := gd.Cond.(*ssa.Extract); isE2 && e2.Index == 1 && e2.Tuple == ssa.Value(l) && gd.Pol {
+						found = true
+					}
+				}
+				if !found || (lk != nil && lk != l) {
+					return nil
+				}
+				lk = l
+				continue
+			}
+			return nil
+		}
+		if l, isL := v.(*ssa.Lookup); isL && !l.CommaOk {
+			if lk != nil && lk != l {
+				return nil
+			}
+			lk = l
+			continue
+		}
+		if isNilConst(v) {
+			continue // the zero value for an absent key
+		}
+		return nil
+	}
+	if lk == nil {
+		return nil
+	}
+	// a zero-value return only where the key is absent
+	for _, ret := range rets {
+		if !isNilConst(plainDeref(ret.Results[0])) {
+			continue
+		}
+		absent := false
+		for _, gd := range guardsOf(ret.Block()) {
+			if e2, isE2 := gd.Cond.(*ssa.Extract); isE2 && e2.Index == 1 && e2.Tuple == ssa.Value(lk) && !gd.Pol {
+				absent = true
+			}
+		}
+		if !absent {
+			return nil
+		}
+	}
+	return lk
 }
